@@ -23,11 +23,11 @@ ID = 'C14'
 MODULE = 'SshAudit.Props.C14'
 NAMESPACE = 'SshAudit.C14'
 THEOREMS = ['numCmp_antisymm', 'numCmp_trans', 'compareVersionNumbers_numeric', 'splitOther_grammar',
-            'compare_numeric', 'compare_numeric_one_digit_false', 'compare_numeric_examples',
+            'compare_numeric', 'compare_numeric_software', 'compare_numeric_one_digit_false', 'compare_numeric_examples',
             'compare_antisymm', 'compare_trans', 'compare_trans_strict', 'compare_sign',
             'openssh_patch_order', 'openssh_p1_same_as_plain', 'dropbear_test_older_than_release',
             'hpn_triple_not_transitive', 'openssh_p0_not_transitive',
-            'between_numeric', 'admits_iff_numeric', 'available_iff_numeric',
+            'between_numeric', 'admits_iff_numeric', 'available_iff_numeric', 'release_patch_ok',
             'slotStep_numeric', 'db_versions_order_safe']
 TECHNIQUE = ('Lean 4 theorems (induction over component lists, generic lexicographic-order lemmas, finite case split over the OpenSSH patch grammar, '
              'kernel-evaluated obligation over the regenerated database) about a hand-written model of software.py/algorithm.py/timeframe.py '
@@ -464,7 +464,7 @@ def build_corr_cases(ctx, pairs):
     db2, db1 = SSH2_KexDB.MASTER_DB, SSH1_KexDB.MASTER_DB
     for fs in (None, True, False):
         cases.append(('ver.dbtf', [fs, 2] + [list(db2[c]) for c in ('kex', 'key', 'enc', 'mac')], ['dbtf-all']))
-        cases.append(('ver.dbtf', [fs, 1, [], list(db1['enc']), list(db1['aut']), []], ['dbtf-all']))
+        cases.append(('ver.dbtf', [fs, 1, ['ssh-rsa1'], list(db1['enc']), list(db1['aut']), []], ['dbtf-all']))
         cases.append(('ver.dbtf', [fs, 2, [], [], [], []], ['dbtf-empty']))
     for _ in range(ctx.scale(400, 6000)):
         lists = []
@@ -479,7 +479,7 @@ def build_corr_cases(ctx, pairs):
     for _ in range(ctx.scale(60, 600)):
         enc = [r.choice(list(db1['enc'])) for _ in range(r.choice([0, 1, 2, 4]))]
         aut = [r.choice(list(db1['aut'])) for _ in range(r.choice([0, 1, 2]))]
-        cases.append(('ver.dbtf', [r.choice([None, True, False]), 1, [], enc, aut, []], ['dbtf-ssh1']))
+        cases.append(('ver.dbtf', [r.choice([None, True, False]), 1, ['ssh-rsa1'], enc, aut, []], ['dbtf-ssh1']))
     cases.append(('ver.dbversions', [], ['dbversions']))
     return cases
 
@@ -616,6 +616,10 @@ def e2e(banner):
                 continue
             if (cat == 'key' and ('-cert-' in n or n.startswith('sk-'))) or (cat == 'kex' and (n.startswith('ext-info-') or n.startswith('kex-strict-'))):
                 continue
+            # post_process_findings (Terrapin) never recommends enabling chacha20-poly1305, CBC ciphers or ETM MACs the peer has switched off
+            if n.startswith('chacha20-poly1305') or n.endswith('-etm@openssh.com') or n.endswith('-cbc') or n.endswith('-cbc@openssh.org') \
+               or n.endswith('-cbc@ssh.com') or n == 'rijndael-cbc@lysator.liu.se':
+                continue
             if spec_available(product, ver, patch, v0, True):
                 want.add((cat, n))
     fresh_dbs()
@@ -711,8 +715,6 @@ def run(ctx):
         v, pa = gen_version(r, p)
         servers.append((p, v, pa))
     for p, v, pa in servers:
-        if one_digit_with_patch((v, pa)):
-            continue
         for fs in (True, False):
             add({'check': 'available', 'product': p, 'version': v, 'patch': pa, 'for_server': fs}, True, ['availability-sweep', p])
     # time frames
